@@ -65,6 +65,7 @@ def stepLine (s : St) (line : String) : St × String :=
   | ["case", n] => ({}, s!"case {n}")
   | ["end"] => ({}, "end")
   | ["backoff", _] => (s, "ok")
+  | ["consts"] => (s, s!"initial={initialDelay.toNat} max={maxBackoff.toNat}")
   | ["list"] =>
     if s.busy != .idle then (s, s!"disabled {summary s}") else
     -- ListPeers: the keys of ps.peers, sorted (peers are p0..p3 in the protocol)
